@@ -67,7 +67,7 @@ CLAIMS["C20"] = {
     "text": "Theorems C20.write_appends_encoding, success_condition (exact), success_below_limit, oversize_refused, failure_keeps_prefix, "
             "to_bytes, int_big_endian, tlv_pair_same for every value of the Payload type and every writer content. Correspondence: op `wr` over "
             "all integer widths at min/max/random, all address kinds, value lengths {0,1,255,256,65535,65536}, writers pre-filled to the guard. Audit additions: the integer type table is now part of the model (IntTy, width, signedness, Payload.ofInt; used by the driver) with int_signed / int_twos / width_table (two's complement big-endian at the natural width for all twelve types), partial_write_exact (exactly which pieces a failing write leaves behind).",
-    "note": BASE_NOTE + " 'A writer below its size limit' is read as: the guard does not trip during the write (DESIGN.md 7, C20).",
+    "note": BASE_NOTE + " 'A writer below its size limit': the check requires success (with exactly the encoding appended) whenever the result still fits a full-size header (65551 bytes), the refusal of oversized values with nothing written, and that any reported success appended the whole encoding; whether a write that would carry the writer PAST 65551 bytes succeeds as a whole or fails part-way (as the current tree does for values written in several pieces: theorem success_condition is exact about it) is not pinned by the property text and not compared (DESIGN.md 7 C20, 14.5 x).",
     "ref": "DESIGN.md 7 (C20)",
 }
 
